@@ -70,6 +70,7 @@ let dispatch = function
     let cancelled = next_int () = 1 in
     let o = match next_int () with
       | 0 -> HRet
+      | 3 -> HRetUnser
       | 1 -> (match next_exc () with
               | COk x -> HRaiseRpc x
               | _ -> HRaiseOther ([], -1))   (* the constructor raises inside the handler: any other exception *)
